@@ -377,17 +377,17 @@ class VParallelAdvection:
         for i, r in grid.getCoords(0):
             parGrad.parallel_gradient(
                 np.real(phi.get2DSlice(i)), i, parGradVals[i])
-            for j, _ in grid.getCoords(1):  # z
+            for j, jGlobal in enumerate(grid.getGlobalIdxVals(1)):  # z
                 for k, _ in grid.getCoords(2):  # q
                     self.step(grid.get1DSlice(
-                        i, j, k), dt, parGradVals[i, j, k], r)
+                        i, j, k), dt, parGradVals[i, jGlobal, k], r)
 
     def gridStepKeepGradient(self, grid: Grid, parGradVals, dt: float):
         for i, r in grid.getCoords(0):
-            for j, _ in grid.getCoords(1):  # z
+            for j, jGlobal in enumerate(grid.getGlobalIdxVals(1)):  # z
                 for k, _ in grid.getCoords(2):  # q
                     self.step(grid.get1DSlice(
-                        i, j, k), dt, parGradVals[i, j, k], r)
+                        i, j, k), dt, parGradVals[i, jGlobal, k], r)
 
 
 class PoloidalAdvection:
